@@ -77,6 +77,11 @@ def trees(draw, max_depth=3, unique_stems=True, bytecode=False):
             for _ in range(nsub):
                 pool = draw(st.sampled_from([IDENT_DIRS, IDENT_DIRS, IDENT_DIRS, ODD_DIRS, IGNORED_DIRS]))
                 nm = draw(st.sampled_from(pool))
+                if pool is IDENT_DIRS and unique_stems:
+                    # unique directory names too: with nested roots a repeated name would give two files the
+                    # same dotted module name (Python's import system could not tell them apart)
+                    counter[0] += 1
+                    nm = '%s%d' % (nm, counter[0])
                 if nm in seen:
                     continue
                 seen.add(nm)
